@@ -89,7 +89,7 @@ Lemma ty_eqb_refl a : ty_eqb a a = true.
 Proof. now apply ty_eqb_eq. Qed.
 
 (* ------------------------------------------------------------------ exceptions and the result monad *)
-Inductive exn := TypeError | ValueError | IndexError | AttributeError | MissingContainedTypeOfContainer | NameError | StopIteration.
+Inductive exn := TypeError | ValueError | IndexError | AttributeError | MissingContainedTypeOfContainer | NameError | StopIteration | TypeResolutionError.
 Inductive res (A : Type) := Ok (a : A) | Raise (e : exn).
 Arguments Ok {A} a.
 Arguments Raise {A} e.
@@ -105,7 +105,7 @@ Definition exn_eqb (a b : exn) : bool :=
   match a, b with
   | TypeError, TypeError | ValueError, ValueError | IndexError, IndexError | AttributeError, AttributeError
   | MissingContainedTypeOfContainer, MissingContainedTypeOfContainer | NameError, NameError
-  | StopIteration, StopIteration => true
+  | StopIteration, StopIteration | TypeResolutionError, TypeResolutionError => true
   | _, _ => false
   end.
 Definition try_except {A} (a : res A) (e : exn) (b : res A) : res A :=
